@@ -41,7 +41,7 @@ PROPS = {
             "sections": [dict(hist("hist", ["apply", "copy", "rownums", "eval", "sort"], quick=250), cover_ops=None)],
             "rule": "every step of every generated history re-observes all earlier family members (digest of the full observation); "
                     "evaluations = observations compared; non-trivial = successful operation on a result with >= 2 rows; distinct by (operation, result)"},
-    "C02": {"lean": ["QF.Props.C02", "QF.Props.C02Spec", "QF.Props.C02Mirror", "QF.Props.C02Kernels", "QF.Props.C02Dispatch"], "extra_ns": ["QF.Props.C02Spec", "QF.Props.C02Mirror", "QF.Props.C02Kernels", "QF.Props.C02Dispatch"],
+    "C02": {"lean": ["QF.Props.C02", "QF.Props.C02Spec", "QF.Props.C02Mirror", "QF.Props.C02Kernels", "QF.Props.C02Dispatch", "QF.Props.C02ClausesCanon", "QF.Props.C02ClausesFns", "QF.Props.C02ClausesGen", "QF.Props.C02ClausesLink"], "extra_ns": ["QF.Props.C02Spec", "QF.Props.C02Mirror", "QF.Props.C02Kernels", "QF.Props.C02Dispatch", "QF.Props.C02ClausesGen"],
             "sections": [hist("hist", ["filter"]),
                          {"section": "hist", "tag": "hist-filter", "opt": "ops=filter+filter+filter+filter+sort+slice+distinct", "quick": 400, "thorough": 4000, "cover_ops": {"filter"}}]},
     "C03": {"lean": ["QF.Props.C03", "QF.Props.C03Spec", "QF.Props.C03Compare", "QF.Props.C10Guards"], "extra_ns": ["QF.Props.C03Compare", "QF.Props.C10Guards"],
